@@ -1,6 +1,6 @@
 #!/bin/bash
 # Runs every check's quick tier once on the current tree; prints one line per check.
-cd /verif
+cd "$(dirname "$0")/.."
 for c in $(./check --list); do
   s=$(date +%s)
   out=$(./check $c --tier ${1:-quick} 2>&1 | grep -v "^WARNING conda" | tail -3 | tr '\n' ' ' | cut -c1-260)
